@@ -16,10 +16,11 @@ def SearchPost (g : Geom) (own : Owned) (h order : Nat) : Res Nat → Owned → 
   | .error e, own' => e = .memory ∧ own' = own
 
 section
-variable {g : Geom}
+variable {g : Geom} (G : Owned → Prop)
 
-theorem setFirstZeros_go_safe (okg : GeomOk g) (own : Owned) (h startRow order : Nat) (ho : order ≤ 6) (cnt i : Nat) :
-    SafeR (SearchPost g own h order) own (Bitfield.setFirstZeros.go g h startRow order cnt i) := by
+theorem setFirstZeros_go_safe (okg : GeomOk g) (own : Owned) (h startRow order : Nat) (ho : order ≤ 6)
+    (hG : ∀ off o, off + 2 ^ order ≤ g.hugeFrames → Between own (addBlock own (h * g.hugeFrames + off) (2 ^ order)) o → G o) (cnt i : Nat) :
+    SafeR G (SearchPost g own h order) own (Bitfield.setFirstZeros.go g h startRow order cnt i) := by
   induction cnt generalizing i with
   | zero =>
     unfold Bitfield.setFirstZeros.go
@@ -30,7 +31,7 @@ theorem setFirstZeros_go_safe (okg : GeomOk g) (own : Owned) (h startRow order :
     have hrpos := okg.rows_pos
     have hidx : (i + startRow % g.rows) % g.rows < g.rows := Nat.mod_lt _ hrpos
     generalize (i + startRow % g.rows) % g.rows = idx at hidx
-    show SafeR _ own (Prog.upd .row (rowIdx g h idx) _ _)
+    show SafeR G _ own (Prog.upd .row (rowIdx g h idx) _ _)
     intro cur hkn
     have hspec := C23.fza_spec cur order ho
     simp only [Upd.ofOption]
@@ -55,7 +56,19 @@ theorem setFirstZeros_go_safe (okg : GeomOk g) (own : Owned) (h startRow order :
           have h3 := hkn b hb hown
           have h4 := hfree (b - off) (by omega)
           rw [show off + (b - off) = b by omega, h3] at h4; cases h4
-      refine ⟨addBits own (rowIdx g h idx) off (2 ^ order), ?_, ?_⟩
+      have hF : h * g.hugeFrames + (idx * 64 + off) = rowIdx g h idx * 64 + off := by
+        simp only [rowIdx]; rw [← okg.rows_mul]; rw [Nat.add_mul, Nat.mul_assoc]; omega
+      have hFrow : (h * g.hugeFrames + (idx * 64 + off)) / 64 = rowIdx g h idx := by rw [hF]; omega
+      have hFbit : (h * g.hugeFrames + (idx * 64 + off)) % 64 = off := by rw [hF]; omega
+      have hin : idx * 64 + off + 2 ^ order ≤ g.hugeFrames := by
+        have : (idx + 1) * 64 ≤ g.rows * 64 := Nat.mul_le_mul_right _ hidx
+        rw [okg.rows_mul, Nat.add_mul, Nat.one_mul] at this
+        omega
+      have hGo : G (addBits own (rowIdx g h idx) off (2 ^ order)) := by
+        have := hG _ _ hin (Between.addBlock_top own (h * g.hugeFrames + (idx * 64 + off)) (2 ^ order))
+        rw [← addBits_eq_block own _ _ (by rw [hFbit]; exact hfit), hFrow, hFbit] at this
+        exact this
+      refine ⟨addBits own (rowIdx g h idx) off (2 ^ order), ?_, hGo, ?_⟩
       · apply Trans.claim_range own _ off (2 ^ order) cur new
         · intro b hb
           rw [hbits b]
@@ -71,10 +84,6 @@ theorem setFirstZeros_go_safe (okg : GeomOk g) (own : Owned) (h startRow order :
       · -- the continuation returns the offset
         simp only [Prog.bind, hf]
         show SearchPost g own h order (.ok (idx * 64 + off)) _
-        have hF : h * g.hugeFrames + (idx * 64 + off) = rowIdx g h idx * 64 + off := by
-          simp only [rowIdx]; rw [← okg.rows_mul]; rw [Nat.add_mul, Nat.mul_assoc]; omega
-        have hFrow : (h * g.hugeFrames + (idx * 64 + off)) / 64 = rowIdx g h idx := by rw [hF]; omega
-        have hFbit : (h * g.hugeFrames + (idx * 64 + off)) % 64 = off := by rw [hF]; omega
         refine ⟨?_, ?_, ?_, ?_⟩
         · -- aligned: 64 is a multiple of 2^order
           have hd : 2 ^ order ∣ 64 := ⟨2 ^ (6 - order), by
@@ -82,28 +91,28 @@ theorem setFirstZeros_go_safe (okg : GeomOk g) (own : Owned) (h startRow order :
             rw [e64, ← Nat.pow_add]; congr 1; omega⟩
           have : 2 ^ order ∣ idx * 64 := Nat.dvd_mul_left_of_dvd hd idx
           rw [Nat.add_mod, Nat.mod_eq_zero_of_dvd this, hal]; simp
-        · have : (idx + 1) * 64 ≤ g.rows * 64 := Nat.mul_le_mul_right _ hidx
-          rw [okg.rows_mul, Nat.add_mul, Nat.one_mul] at this
-          omega
+        · exact hin
         · rw [← addBits_eq_block own _ _ (by rw [hFbit]; exact hfit), hFrow, hFbit]
         · exact block_none_of_bits own _ _ (by rw [hFbit]; exact hfit) (by rw [hFrow, hFbit]; exact hnone)
 
 /-- **`set_first_zeros` (orders 0..6) in any interleaving** -/
-theorem setFirstZeros_small_safe (okg : GeomOk g) (own : Owned) (h startRow order : Nat) (ho : order ≤ 6) :
-    SafeR (SearchPost g own h order) own (Bitfield.setFirstZeros g h startRow order) := by
+theorem setFirstZeros_small_safe (okg : GeomOk g) (own : Owned) (h startRow order : Nat) (ho : order ≤ 6)
+    (hG : ∀ off o, off + 2 ^ order ≤ g.hugeFrames → Between own (addBlock own (h * g.hugeFrames + off) (2 ^ order)) o → G o) :
+    SafeR G (SearchPost g own h order) own (Bitfield.setFirstZeros g h startRow order) := by
   unfold Bitfield.setFirstZeros
   have : ¬ order > 6 := by omega
   simp only [this, if_false]
-  exact setFirstZeros_go_safe okg own h startRow order ho g.rows 0
+  exact setFirstZeros_go_safe G okg own h startRow order ho hG g.rows 0
 
 end
 
 /-! ### whole rows (orders 7 .. huge order): `set_first_zero_rows` -/
 
 /-- the roll-back of `casRange` over rows never panics and returns what was claimed -/
-theorem casRangeUndo_rows_safe (own0 : Owned) (R0 : Nat) (msg : String) (k : Nat)
-    (hdis : ∀ x, x < k → ∀ b, b < 64 → own0 ((R0 + x) * 64 + b) = false) :
-    SafeR (fun (_ : Unit) o => o = own0) (addRows own0 R0 k) (casRangeUndo .row R0 (0 : BitVec 64) rowMax msg k k) := by
+theorem casRangeUndo_rows_safe (G : Owned → Prop) (own0 : Owned) (R0 : Nat) (msg : String) (k : Nat)
+    (hdis : ∀ x, x < k → ∀ b, b < 64 → own0 ((R0 + x) * 64 + b) = false)
+    (hG : ∀ j, j ≤ k → G (addRows own0 R0 j)) :
+    SafeR G (fun (_ : Unit) o => o = own0) (addRows own0 R0 k) (casRangeUndo .row R0 (0 : BitVec 64) rowMax msg k k) := by
   induction k with
   | zero =>
     unfold casRangeUndo
@@ -112,7 +121,7 @@ theorem casRangeUndo_rows_safe (own0 : Owned) (R0 : Nat) (msg : String) (k : Nat
   | succ k ih =>
     unfold casRangeUndo
     rw [show k + 1 - 1 = k by omega]
-    show SafeR _ _ (Prog.cas .row _ _ _ _)
+    show SafeR G _ _ (Prog.cas .row _ _ _ _)
     intro cur hk
     have hcur : cur = rowMax := by
       apply known_all _ _ cur hk
@@ -121,14 +130,15 @@ theorem casRangeUndo_rows_safe (own0 : Owned) (R0 : Nat) (msg : String) (k : Nat
       have e1 : ((R0 + k) * 64 + b) / 64 = R0 + k := by omega
       simp [e1]
     refine ⟨fun _ => ?_, fun hne => absurd hcur hne⟩
-    refine ⟨addRows own0 R0 k, Trans.unclaim_row own0 _ k (hdis k (by omega)), ?_⟩
+    refine ⟨addRows own0 R0 k, Trans.unclaim_row own0 _ k (hdis k (by omega)), hG k (by omega), ?_⟩
     simp only
-    exact ih (fun x hx => hdis x (by omega))
+    exact ih (fun x hx => hdis x (by omega)) (fun j hj => hG j (by omega))
 
 /-- `casRange` claiming all-zero rows: all of them, or none (after the roll-back) -/
-theorem casRange_rows_safe (own0 : Owned) (R0 : Nat) (msg : String) (K cnt k : Nat) (hk : k + cnt = K)
-    (hdis : ∀ x, x < k → ∀ b, b < 64 → own0 ((R0 + x) * 64 + b) = false) :
-    SafeR (fun (ok : Bool) own' => if ok then own' = addRows own0 R0 K ∧
+theorem casRange_rows_safe (G : Owned → Prop) (own0 : Owned) (R0 : Nat) (msg : String) (K cnt k : Nat) (hk : k + cnt = K)
+    (hdis : ∀ x, x < k → ∀ b, b < 64 → own0 ((R0 + x) * 64 + b) = false)
+    (hG : ∀ j, j ≤ K → G (addRows own0 R0 j)) :
+    SafeR G (fun (ok : Bool) own' => if ok then own' = addRows own0 R0 K ∧
         (∀ x, x < K → ∀ b, b < 64 → own0 ((R0 + x) * 64 + b) = false) else own' = own0)
       (addRows own0 R0 k) (casRange .row R0 (0 : BitVec 64) rowMax msg cnt k) := by
   induction cnt generalizing k with
@@ -139,7 +149,7 @@ theorem casRange_rows_safe (own0 : Owned) (R0 : Nat) (msg : String) (K cnt k : N
     exact ⟨rfl, hdis⟩
   | succ cnt ih =>
     unfold casRange
-    show SafeR _ _ (Prog.cas .row _ _ _ _)
+    show SafeR G _ _ (Prog.cas .row _ _ _ _)
     intro cur hkn
     refine ⟨fun he => ?_, fun _ => ?_⟩
     · subst he
@@ -150,7 +160,7 @@ theorem casRange_rows_safe (own0 : Owned) (R0 : Nat) (msg : String) (K cnt k : N
         cases ho : own0 ((R0 + k) * 64 + b) with
         | false => rfl
         | true => rw [ho] at this; simp at this
-      refine ⟨addRows own0 R0 (k + 1), Trans.claim_row own0 _ k, ?_⟩
+      refine ⟨addRows own0 R0 (k + 1), Trans.claim_row own0 _ k, hG (k + 1) (by omega), ?_⟩
       simp only
       apply ih (k + 1) (by omega)
       intro x hx b hb
@@ -158,29 +168,30 @@ theorem casRange_rows_safe (own0 : Owned) (R0 : Nat) (msg : String) (K cnt k : N
       · subst e; exact hnone b hb
       · exact hdis x (by omega) b hb
     · simp only
-      apply SafeR.bind _ _ _ (casRangeUndo_rows_safe own0 R0 msg k hdis)
+      apply SafeR.bind _ _ _ (casRangeUndo_rows_safe G own0 R0 msg k hdis (fun j hj => hG j (by omega)))
       rintro _ o rfl
-      show SafeR _ _ (Prog.ret false)
+      show SafeR G _ _ (Prog.ret false)
       simp only [SafeR, Bool.false_eq_true, if_false]
 
 section
-variable {g : Geom}
+variable {g : Geom} (G : Owned → Prop)
 
 theorem allZero_safe (own : Owned) (h cnt r : Nat) :
-    SafeR (fun (_ : Bool) o => o = own) own (Bitfield.setFirstZeroRows.allZero g h cnt r) := by
+    SafeR G (fun (_ : Bool) o => o = own) own (Bitfield.setFirstZeroRows.allZero g h cnt r) := by
   induction cnt generalizing r with
   | zero => unfold Bitfield.setFirstZeroRows.allZero; rfl
   | succ cnt ih =>
     unfold Bitfield.setFirstZeroRows.allZero
-    show SafeR _ own (Prog.load .row _ _)
+    show SafeR G _ own (Prog.load .row _ _)
     intro v _
-    show SafeR _ own (if v = 0 then _ else _)
+    show SafeR G _ own (if v = 0 then _ else _)
     by_cases hv : v = 0
     · rw [if_pos hv]; exact ih (r + 1)
     · rw [if_neg hv]; rfl
 
-theorem chunks_safe (own : Owned) (h n q : Nat) (hn : 0 < n) (hrows : g.rows = q * n) (cnt ci : Nat) (hci : ci + cnt = q) :
-    SafeR (fun r own' => match r with
+theorem chunks_safe (own : Owned) (h n q : Nat) (hn : 0 < n) (hrows : g.rows = q * n) (cnt ci : Nat) (hci : ci + cnt = q)
+    (hG : ∀ c j, c + n ≤ g.rows → j ≤ n → G (addRows own (h * g.rows + c) j)) :
+    SafeR G (fun r own' => match r with
         | .ok c => c % n = 0 ∧ c + n ≤ g.rows ∧ own' = addRows own (h * g.rows + c) n ∧
             (∀ x, x < n → ∀ b, b < 64 → own ((h * g.rows + c + x) * 64 + b) = false)
         | .error e => e = .memory ∧ own' = own) own
@@ -192,7 +203,7 @@ theorem chunks_safe (own : Owned) (h n q : Nat) (hn : 0 < n) (hrows : g.rows = q
   | succ cnt ih =>
     unfold Bitfield.setFirstZeroRows.chunks
     simp only
-    apply SafeR.bind _ _ _ (allZero_safe own h _ _)
+    apply SafeR.bind _ _ _ (allZero_safe G own h _ _)
     rintro z o rfl
     cases z with
     | false => simp only [Bool.false_eq_true, if_false]; exact ih (ci + 1) (by omega)
@@ -204,7 +215,8 @@ theorem chunks_safe (own : Owned) (h n q : Nat) (hn : 0 < n) (hrows : g.rows = q
         rw [Nat.add_mul, Nat.one_mul] at this; exact this
       have hlen : min n (g.rows - ci * n) = n := by omega
       rw [hlen]
-      have key := casRange_rows_safe o (rowIdx g h (ci * n)) "Failed undo search" n n 0 (by omega) (fun x hx => by omega)
+      have key := casRange_rows_safe G o (rowIdx g h (ci * n)) "Failed undo search" n n 0 (by omega) (fun x hx => by omega)
+        (fun j hj => hG (ci * n) j hfit hj)
       rw [addRows_zero] at key
       apply SafeR.bind _ _ _ key
       intro b o' hb
@@ -220,8 +232,9 @@ theorem chunks_safe (own : Owned) (h n q : Nat) (hn : 0 < n) (hrows : g.rows = q
 /-- **`set_first_zeros` (orders 7 .. huge order) in any interleaving**: a success claims exactly
     the rows of an aligned block that were all zero at the instants of their compare-exchanges;
     a lost race rolls back (without panic) and the search goes on. -/
-theorem setFirstZeros_rows_safe (okg : GeomOk g) (own : Owned) (h startRow order : Nat) (h6 : 6 < order) (hoh : order ≤ g.hugeOrder) :
-    SafeR (SearchPost g own h order) own (Bitfield.setFirstZeros g h startRow order) := by
+theorem setFirstZeros_rows_safe (okg : GeomOk g) (own : Owned) (h startRow order : Nat) (h6 : 6 < order) (hoh : order ≤ g.hugeOrder)
+    (hG : ∀ off o, off + 2 ^ order ≤ g.hugeFrames → Between own (addBlock own (h * g.hugeFrames + off) (2 ^ order)) o → G o) :
+    SafeR G (SearchPost g own h order) own (Bitfield.setFirstZeros g h startRow order) := by
   unfold Bitfield.setFirstZeros
   have : order > 6 := h6
   simp only [this, if_true]
@@ -237,10 +250,22 @@ theorem setFirstZeros_rows_safe (okg : GeomOk g) (own : Owned) (h startRow order
         2 ^ (order - 6) * 2 ^ (g.hugeOrder - order) + (2 ^ (order - 6) - 1) := by rw [Nat.mul_comm]; omega
     rw [this, Nat.mul_add_div hn, Nat.div_eq_of_lt (by omega), Nat.add_zero]
   rw [hcnt]
-  apply SafeR.bind _ _ _ (chunks_safe own h (2 ^ (order - 6)) (2 ^ (g.hugeOrder - order)) hn hmul _ 0 (by omega))
-  intro r o hr
   have e64 : (64 : Nat) = 2 ^ 6 := rfl
   have hsplit : 2 ^ order = 2 ^ (order - 6) * 64 := by rw [e64, ← Nat.pow_add]; congr 1; omega
+  have hGc : ∀ c j, c + 2 ^ (order - 6) ≤ g.rows → j ≤ 2 ^ (order - 6) → G (addRows own (h * g.rows + c) j) := by
+    intro c j hc hj
+    have hF : h * g.hugeFrames + c * 64 = (h * g.rows + c) * 64 := by
+      rw [← okg.rows_mul, Nat.add_mul, Nat.mul_assoc]
+    have hF64 : (h * g.hugeFrames + c * 64) % 64 = 0 := by rw [hF]; exact Nat.mul_mod_left _ _
+    have hFrow : (h * g.hugeFrames + c * 64) / 64 = h * g.rows + c := by rw [hF]; exact Nat.mul_div_cancel _ (by decide)
+    apply hG (c * 64)
+    · rw [hsplit, ← okg.rows_mul]
+      have : (c + 2 ^ (order - 6)) * 64 ≤ g.rows * 64 := Nat.mul_le_mul_right _ hc
+      rw [Nat.add_mul] at this; exact this
+    · rw [hsplit, ← addRows_eq_block own _ _ hF64, hFrow]
+      exact Between.addRows own _ j _ hj
+  apply SafeR.bind _ _ _ (chunks_safe G own h (2 ^ (order - 6)) (2 ^ (g.hugeOrder - order)) hn hmul _ 0 (by omega) hGc)
+  intro r o hr
   cases r with
   | error e => exact hr
   | ok c =>
@@ -269,11 +294,12 @@ theorem setFirstZeros_rows_safe (okg : GeomOk g) (own : Owned) (h startRow order
       exact this
 
 /-- **`set_first_zeros`, every order up to the huge order, in any interleaving** -/
-theorem setFirstZeros_safe (okg : GeomOk g) (own : Owned) (h startRow order : Nat) (hoh : order ≤ g.hugeOrder) :
-    SafeR (SearchPost g own h order) own (Bitfield.setFirstZeros g h startRow order) := by
+theorem setFirstZeros_safe (okg : GeomOk g) (own : Owned) (h startRow order : Nat) (hoh : order ≤ g.hugeOrder)
+    (hG : ∀ off o, off + 2 ^ order ≤ g.hugeFrames → Between own (addBlock own (h * g.hugeFrames + off) (2 ^ order)) o → G o) :
+    SafeR G (SearchPost g own h order) own (Bitfield.setFirstZeros g h startRow order) := by
   by_cases h6 : order ≤ 6
-  · exact setFirstZeros_small_safe okg own h startRow order h6
-  · exact setFirstZeros_rows_safe okg own h startRow order (by omega) hoh
+  · exact setFirstZeros_small_safe G okg own h startRow order h6 hG
+  · exact setFirstZeros_rows_safe G okg own h startRow order (by omega) hoh hG
 
 end
 end LLFree
